@@ -9,6 +9,7 @@ ROOT = os.path.dirname(os.path.dirname(os.path.abspath(__file__)))
 REPO = "/repo"
 ENV = {**os.environ, "GOFLAGS": "-mod=mod", "GOPROXY": "off"}
 SEEDED = os.path.join(ROOT, "seeded")
+GOVC = os.path.join(ROOT, "bin", "govc")
 
 
 def prep_verif(ver):
@@ -79,7 +80,7 @@ def baseline(prop):
         try:
             ver = os.path.join(tmp, "verif"); os.makedirs(ver)
             prep_verif(ver)
-            r = subprocess.run([os.path.join(ROOT, "bin", "govc"), "check", "-property", prop, "-repo", REPO, "-verif", ver, "-v"], capture_output=True, text=True, env=ENV)
+            r = subprocess.run([GOVC, "check", "-property", prop, "-repo", REPO, "-verif", ver, "-v"], capture_output=True, text=True, env=ENV)
             _base[prop] = {l.split()[1] for l in r.stdout.splitlines() if l.strip().startswith("FAILED ")}
         finally:
             shutil.rmtree(tmp, ignore_errors=True)
@@ -94,7 +95,7 @@ def detect(sid):
         for prop in props:
             ver = os.path.join(tmp, "verif-" + prop); os.makedirs(ver)
             prep_verif(ver)
-            r = subprocess.run([os.path.join(ROOT, "bin", "govc"), "check", "-property", prop, "-repo", repo, "-verif", ver, "-v"], capture_output=True, text=True, env=ENV)
+            r = subprocess.run([GOVC, "check", "-property", prop, "-repo", repo, "-verif", ver, "-v"], capture_output=True, text=True, env=ENV)
             known = {l.split()[2].rstrip(":") for l in r.stdout.splitlines() if l.startswith("KNOWN-FINDING:")}
             failed = [l.split()[1] for l in r.stdout.splitlines() if l.strip().startswith("FAILED ")]
             new = [f for f in failed if f not in baseline(prop)]
@@ -106,6 +107,19 @@ def detect(sid):
     m["detected"] = any(d["exit"] == 1 and d["violations"] > 0 and d["failed_obligations"] for d in det.values())
     save(sid, m)
     return sid, m["detected"], {p: d["failed_obligations"][:4] for p, d in det.items()}
+
+def snapshot_repo():
+    """detect / confirm run for hours: work from one snapshot of /repo taken now, so that /repo may be edited meanwhile"""
+    global REPO
+    snap = tempfile.mkdtemp(prefix="govc-seed-snap-")
+    dst = os.path.join(snap, "repo")
+    shutil.copytree(REPO, dst, ignore=shutil.ignore_patterns(".git"))
+    REPO = dst
+    global GOVC
+    GOVC = os.path.join(snap, "govc")
+    shutil.copy(os.path.join(ROOT, "bin", "govc"), GOVC)
+    os.chmod(GOVC, 0o755)
+    return snap
 
 def main():
     cmd = sys.argv[1]; args = sys.argv[2:]
@@ -120,6 +134,13 @@ def main():
         return 0
     ids = args or sorted(os.listdir(SEEDED))
     f = confirm if cmd == "confirm" else detect
+    snap = snapshot_repo()
+    try:
+        return run(cmd, f, ids)
+    finally:
+        shutil.rmtree(snap, ignore_errors=True)
+
+def run(cmd, f, ids):
     if cmd == "detect":
         for sid in ids:
             for prop in (meta(sid).get("check_properties") or [meta(sid)["property"]]): baseline(prop)
